@@ -382,7 +382,7 @@ def units(tier, seed):
     quick = tier == "quick"
     u = [{"name": "shipped", "kind": "shipped", "sA0": False}, {"name": "shipped+sA_0", "kind": "shipped", "sA0": True},
          {"name": "cli-goofit", "kind": "cli", "gen": "goofit"}, {"name": "cli-goofitpy", "kind": "cli", "gen": "goofitpy"}]
-    u += [{"name": f"hyp{k:02d}", "kind": "hyp", "n": 20 if quick else 200} for k in range(12 if quick else 10)]
+    u += [{"name": f"hyp{k:02d}", "kind": "hyp", "n": 20 if quick else 500} for k in range(12 if quick else 10)]
     if not quick:
         u += [{"name": f"cli-gen{k}", "kind": "cli-gen", "n": 6} for k in range(2)]
     return u
